@@ -292,6 +292,7 @@ func (jb *JitterBuffer) Clear(resetState bool) {
 	if resetState {
 		jb.lastSequence = 0
 		jb.state = Buffering
+		jb.playoutReady = false
 		jb.stats = Stats{0, 0, 0}
 		jb.minStartCount = 50
 	}
